@@ -28,4 +28,625 @@ theorem foldM'_ok {σ α : Type} (f : σ → α → M σ) (P : σ → Prop) (l :
     obtain ⟨s2, h2, hp2⟩ := ih (fun t ht x hx => h t ht x (by simp [hx])) s1 hp1
     exact ⟨s2, by simp [foldM', h1, h2, bind, Except.bind], hp2⟩
 
+/-! ### flow-control schemas -/
+
+theorem vfc_total (s : Schema) (p : String) : ∃ e, validateFlowControlConfiguration s p = .ok e := by
+  obtain ⟨name, strategy, exempt, m, tb, gm, gtb⟩ := s
+  cases exempt <;> cases m <;> cases tb <;> cases gm <;> cases gtb <;>
+    simp [validateFlowControlConfiguration, vfcMaxRequestsInflight, vfcGlobalMaxRequestsInflight, vfcTokenBucket,
+      vfcGlobalTokenBucket, deref, bind, Except.bind, pure, Except.pure]
+
+theorem vfc_nil_iff (s : Schema) (p : String) :
+    validateFlowControlConfiguration s p = .ok [] ↔ schemaOK s = true := by
+  obtain ⟨name, strategy, exempt, m, tb, gm, gtb⟩ := s
+  cases exempt <;> cases m <;> cases tb <;> cases gm <;> cases gtb <;>
+    simp [validateFlowControlConfiguration, vfcMaxRequestsInflight, vfcGlobalMaxRequestsInflight, vfcTokenBucket,
+      vfcGlobalTokenBucket, deref, bind, Except.bind, pure, Except.pure, schemaOK, shapeOf, Shape.inRange,
+      validateTokenBucketFlowControlSchema, errIf]
+  · split
+    · simp; omega
+    · split
+      · simp; omega
+      · simp; omega
+  · omega
+
+theorem setInsert_fresh (names : List Str) (x : Str) (h : x ∉ names) : setInsert names x = names ++ [x] := by
+  simp [setInsert, h]
+
+theorem vfcLoop_spec (p : String) (l : List Schema) : ∀ (i : Nat) (names : List Str),
+    ∃ ns e, validateFlowControlLoop p i l names = .ok (ns, e) ∧
+      (e = [] ↔ (namesOK l = true ∧ (∀ s ∈ l, s.name ∉ names) ∧
+        ∀ s ∈ l, strategyOK s.strategy = true ∧ schemaOK s = true)) ∧
+      (e = [] → ns = names ++ l.map (·.name)) := by
+  induction l with
+  | nil => intro i names; exact ⟨names, [], rfl, by simp [namesOK], by simp⟩
+  | cons fs rest ih =>
+    intro i names
+    obtain ⟨e3, h3⟩ := vfc_total fs (index p i)
+    have h3' : e3 = [] ↔ schemaOK fs = true := by
+      rw [← vfc_nil_iff fs (index p i), h3]; simp
+    obtain ⟨ns, es, hl, hiff, hns⟩ := ih (i+1) (if fs.name = [] then names else setInsert names fs.name)
+    refine ⟨ns, (if fs.name = [] then [required (child (index p i) "name")]
+      else if names.contains fs.name then [duplicate (child (index p i) "name")] else []) ++
+      errIf (!strategyOK fs.strategy) (invalid (child (index p i) "strategy")) ++ e3 ++ es, ?_, ?_, ?_⟩
+    · simp [validateFlowControlLoop, h3, hl, bind, Except.bind, pure, Except.pure]
+    · by_cases hn : fs.name = []
+      · simp [hn, namesOK]
+      · by_cases hc : fs.name ∈ names
+        · simp [hn, hc, namesOK]
+        · simp only [hn, if_false, setInsert_fresh names fs.name hc] at hiff hns
+          simp [hiff, h3', namesOK, hn, hc]
+          constructor
+          · rintro ⟨a, b, c, d, e⟩
+            exact ⟨⟨fun x hx => (d x hx).2, c⟩, fun x hx => (d x hx).1, ⟨a, b⟩, e⟩
+          · rintro ⟨⟨a, b⟩, c, ⟨d, e⟩, f⟩
+            exact ⟨d, e, b, fun s hs => ⟨c s hs, a s hs⟩, f⟩
+    · intro he
+      by_cases hn : fs.name = []
+      · simp [hn] at he
+      · by_cases hc : fs.name ∈ names
+        · simp [hn, hc] at he
+        · simp only [hn, if_false, setInsert_fresh names fs.name hc] at hns
+          simp [hn, hc] at he
+          rw [hns he.2.2]
+          simp
+
+/-! ### servers -/
+
+theorem validateServer_ok (env : Env) (p : String) (i : Nat) (s : Server) (h : endpointOK env s.endpoint = true) :
+    validateServer env p i s = ([], some (getURLScheme s.endpoint)) := by
+  unfold endpointOK at h
+  unfold validateServer
+  cases hu : env.urlParse s.endpoint with
+  | none => simp [hu] at h
+  | some u => simp [hu] at h; simp [h]
+
+theorem validateServer_bad (env : Env) (p : String) (i : Nat) (s : Server) (h : endpointOK env s.endpoint = false) :
+    (validateServer env p i s).1 ≠ [] ∧ (validateServer env p i s).2 = none := by
+  unfold endpointOK at h
+  unfold validateServer
+  cases hu : env.urlParse s.endpoint with
+  | none => by_cases hs : getURLScheme s.endpoint = [] <;> simp [hs]
+  | some u =>
+    by_cases hs : getURLScheme s.endpoint = []
+    · simp [hs]
+    · simp [hu, hs] at h; simp [hs, h]
+
+theorem serversLoop_errs (env : Env) (p : String) (l : List Server) : ∀ (i : Nat) (schemes : List Str),
+    ((validateServersLoop env p i l schemes).1 = [] ↔ ∀ s ∈ l, endpointOK env s.endpoint = true) := by
+  induction l with
+  | nil => intro i schemes; simp [validateServersLoop]
+  | cons s rest ih =>
+    intro i schemes
+    cases h : endpointOK env s.endpoint with
+    | true =>
+      simp [validateServersLoop, validateServer_ok env p i s h, ih, h]
+    | false =>
+      have hb := validateServer_bad env p i s h
+      simp [validateServersLoop, hb.1, h]
+
+theorem serversLoop_mono (env : Env) (p : String) (l : List Server) : ∀ (i : Nat) (schemes : List Str),
+    schemes.length ≤ (validateServersLoop env p i l schemes).2.length := by
+  induction l with
+  | nil => intro i schemes; simp [validateServersLoop]
+  | cons s rest ih =>
+    intro i schemes
+    simp only [validateServersLoop]
+    cases h : (validateServer env p i s).2 with
+    | none => simpa using ih (i+1) schemes
+    | some sc =>
+      refine Nat.le_trans ?_ (ih (i+1) (setInsert schemes sc))
+      unfold setInsert; split <;> simp
+
+theorem serversLoop_same (env : Env) (p : String) (x : Str) (l : List Server) : ∀ (i : Nat),
+    (∀ s ∈ l, endpointOK env s.endpoint = true) → (∀ s ∈ l, getURLScheme s.endpoint = x) →
+    (validateServersLoop env p i l [x]).2 = [x] := by
+  induction l with
+  | nil => intro i _ _; simp [validateServersLoop]
+  | cons s rest ih =>
+    intro i hok hx
+    have h1 := validateServer_ok env p i s (hok s (by simp))
+    have h2 : getURLScheme s.endpoint = x := hx s (by simp)
+    simp [validateServersLoop, h1, h2, setInsert]
+    exact ih (i+1) (fun t ht => hok t (by simp [ht])) (fun t ht => hx t (by simp [ht]))
+
+theorem serversLoop_diff (env : Env) (p : String) (x : Str) (l : List Server) : ∀ (i : Nat),
+    (∀ s ∈ l, endpointOK env s.endpoint = true) → (∃ s ∈ l, getURLScheme s.endpoint ≠ x) →
+    1 < (validateServersLoop env p i l [x]).2.length := by
+  induction l with
+  | nil => intro i _ h; simp at h
+  | cons s rest ih =>
+    intro i hok hx
+    have h1 := validateServer_ok env p i s (hok s (by simp))
+    by_cases h2 : getURLScheme s.endpoint = x
+    · simp [validateServersLoop, h1, h2, setInsert]
+      apply ih (i+1) (fun t ht => hok t (by simp [ht]))
+      obtain ⟨t, ht, hne⟩ := hx
+      simp at ht
+      rcases ht with rfl | ht
+      · exact absurd h2 hne
+      · exact ⟨t, ht, hne⟩
+    · have hm := serversLoop_mono env p rest (i+1) [x, getURLScheme s.endpoint]
+      have hne : ¬ (x = getURLScheme s.endpoint) := fun h => h2 h.symm
+      simp [validateServersLoop, h1, setInsert, h2]
+      simp at hm
+      omega
+
+theorem sameScheme_cons (s : Server) (rest : List Server) :
+    sameScheme (s :: rest) = true ↔ ∀ t ∈ rest, getURLScheme t.endpoint = getURLScheme s.endpoint := by
+  unfold sameScheme
+  simp only [List.all_eq_true, decide_eq_true_eq]
+  constructor
+  · intro h t ht
+    exact h t (by simp [ht]) s (by simp)
+  · intro h a ha b hb
+    have ea : getURLScheme a.endpoint = getURLScheme s.endpoint := by
+      simp at ha; rcases ha with rfl | ha
+      · rfl
+      · exact h a ha
+    have eb : getURLScheme b.endpoint = getURLScheme s.endpoint := by
+      simp at hb; rcases hb with rfl | hb
+      · rfl
+      · exact h b hb
+    rw [ea, eb]
+
+/-- `ValidateServers`: no error iff there is a server, every endpoint is usable and all use one scheme; the scheme
+    handed to `ValidateClientConfig` is then the first server's. -/
+theorem validateServers_spec (env : Env) (servers : List Server) (p : String) :
+    ((validateServers env servers p).errs = [] ↔
+      (servers ≠ [] ∧ (∀ s ∈ servers, endpointOK env s.endpoint = true) ∧ sameScheme servers = true)) ∧
+    ((validateServers env servers p).errs = [] → (validateServers env servers p).scheme = schemeOf servers) ∧
+    (validateServers env servers p).upstreams = servers.map (·.endpoint) := by
+  cases servers with
+  | nil => simp [validateServers, errIf]
+  | cons s rest =>
+    have key : (∀ t ∈ s :: rest, endpointOK env t.endpoint = true) →
+        ((validateServersLoop env p 0 (s :: rest) []).2.length ≤ 1 ↔ sameScheme (s :: rest) = true) ∧
+        (sameScheme (s :: rest) = true → (validateServersLoop env p 0 (s :: rest) []).2 = [getURLScheme s.endpoint]) := by
+      intro hok
+      have h1 := validateServer_ok env p 0 s (hok s (by simp))
+      have hrest : ∀ t ∈ rest, endpointOK env t.endpoint = true := fun t ht => hok t (by simp [ht])
+      rw [sameScheme_cons]
+      simp only [validateServersLoop, h1, setInsert]
+      simp only [List.contains_nil, Bool.false_eq_true, if_false, List.nil_append]
+      by_cases hall : ∀ t ∈ rest, getURLScheme t.endpoint = getURLScheme s.endpoint
+      · have := serversLoop_same env p (getURLScheme s.endpoint) rest (0+1) hrest hall
+        simp only [this]
+        simp
+        exact hall
+      · have hex : ∃ t ∈ rest, getURLScheme t.endpoint ≠ getURLScheme s.endpoint := by
+          simpa using hall
+        have := serversLoop_diff env p (getURLScheme s.endpoint) rest (0+1) hrest hex
+        constructor
+        · constructor
+          · intro h; omega
+          · intro h; exact absurd h hall
+        · intro h; exact absurd h hall
+    refine ⟨?_, ?_, rfl⟩
+    · simp only [validateServers, List.append_eq_nil_iff, errIf_eq_nil]
+      have he := serversLoop_errs env p (s :: rest) 0 []
+      constructor
+      · rintro ⟨⟨_, h2⟩, h3⟩
+        have hok := he.mp h2
+        have hk := key hok
+        refine ⟨by simp, hok, hk.1.mp ?_⟩
+        simpa using h3
+      · rintro ⟨_, hok, hs⟩
+        have hk := key hok
+        refine ⟨⟨by simp, he.mpr hok⟩, ?_⟩
+        have := hk.1.mpr hs
+        simp; omega
+    · intro h
+      simp only [validateServers, List.append_eq_nil_iff, errIf_eq_nil] at h
+      have hok := (serversLoop_errs env p (s :: rest) 0 []).mp h.1.2
+      have hk := key hok
+      have hs : sameScheme (s :: rest) = true := hk.1.mp (by simpa using h.2)
+      simp [validateServers, hk.2 hs, popAny, schemeOf]
+
+/-! ### policies, client config, serving, feature gate, conflicts -/
+
+theorem validateSubset_nil (ups : List Str) (p : String) (l : List Str) : ∀ j,
+    validateSubset ups p j l = [] ↔ ∀ u ∈ l, u ∈ ups := by
+  induction l with
+  | nil => intro j; simp [validateSubset]
+  | cons u rest ih => intro j; simp [validateSubset, ih]
+
+theorem validateDispatchPolicy_nil (ups names : List Str) (pol : Policy) (p : String) :
+    validateDispatchPolicy ups names pol p = [] ↔
+      (pol.strategy = sRoundRobin ∧ (∀ u ∈ pol.upstreamSubset, u ∈ ups) ∧
+       (pol.flowControlSchemaName = [] ∨ pol.flowControlSchemaName ∈ names) ∧ pol.nRules ≠ 0 ∧ logModeOK pol.logMode = true) := by
+  have hq : (¬pol.flowControlSchemaName = [] → pol.flowControlSchemaName ∈ names) ↔
+      (pol.flowControlSchemaName = [] ∨ pol.flowControlSchemaName ∈ names) := by
+    by_cases hn : pol.flowControlSchemaName = [] <;> simp [hn]
+  simp [validateDispatchPolicy, validateSubset_nil, hq]
+
+theorem validatePolicies_nil (ups names : List Str) (p : String) (l : List Policy) : ∀ i,
+    validatePolicies ups names p i l = [] ↔ ∀ pol ∈ l,
+      (pol.strategy = sRoundRobin ∧ (∀ u ∈ pol.upstreamSubset, u ∈ ups) ∧
+       (pol.flowControlSchemaName = [] ∨ pol.flowControlSchemaName ∈ names) ∧ pol.nRules ≠ 0 ∧ logModeOK pol.logMode = true) := by
+  induction l with
+  | nil => intro i; simp [validatePolicies]
+  | cons a rest ih => intro i; simp [validatePolicies, ih, validateDispatchPolicy_nil]
+
+theorem validateClientConfig_nil (env : Env) (scheme : Str) (c : ClientConfig) (p : String) :
+    validateClientConfig env scheme c p = [] ↔ (clientLimitsOK c = true ∧ clientTLSOK env scheme c = true) := by
+  obtain ⟨insecure, token, key, cert, ca, qps, burst, div⟩ := c
+  have hq : (0 < qps → qps ≤ burst) ↔ (qps ≤ 0 ∨ qps ≤ burst) := by omega
+  by_cases hs : scheme = sHttps <;> by_cases hk : key = [] <;> by_cases hc : cert = [] <;> by_cases ha : ca = [] <;>
+    by_cases ht : token = [] <;> cases insecure <;>
+    simp [validateClientConfig, validateClientConfigHTTPS, clientLimitsOK, clientTLSOK, hs, hk, hc, ha, ht, errIf, hq, and_assoc]
+
+theorem validateSecureServing_nil (env : Env) (s : SecureServing) (p : String) :
+    validateSecureServing env s p = [] ↔ servingOK env s = true := by
+  obtain ⟨key, cert, ca, names⟩ := s
+  by_cases hk : key = [] <;> by_cases hc : cert = [] <;> by_cases ha : ca = [] <;>
+    simp [validateSecureServing, servingOK, hk, hc, ha, errIf]
+
+theorem validateFeatureGate_nil (env : Env) (c : Cluster) :
+    validateFeatureGate env c = [] ↔ featureGateOK env c = true := by
+  unfold validateFeatureGate featureGateOK
+  cases c.annotations with
+  | none => simp
+  | some m =>
+    by_cases h : mapGet m sFeatureGateKey = []
+    · simp [h]
+    · cases hg : env.featureGateSet (mapGet m sFeatureGateKey) <;> simp [h, hg]
+
+theorem conflictsWith_nil (env : Env) (cn : Str) (sns : List Str) (l : List Str) :
+    conflictsWith env cn sns l = [] ↔ ∀ s ∈ l, env.lower cn ≠ env.lower s ∧ ∀ sn ∈ sns, env.lower sn ≠ env.lower s := by
+  induction l with
+  | nil => simp [conflictsWith]
+  | cons s rest ih =>
+    simp [conflictsWith, ih, List.filter_eq_nil_iff, and_assoc]
+
+theorem validateConflicts_nil (env : Env) (c : Cluster) (known : List Known) :
+    validateConflicts env c known = [] ↔ noConflict env known c = true := by
+  induction known with
+  | nil => simp [validateConflicts, noConflict]
+  | cons u rest ih =>
+    unfold noConflict at ih ⊢
+    by_cases h : env.lower u.name = env.lower c.name
+    · simp [validateConflicts, h, ih]
+    · simp only [validateConflicts, h, if_false, List.append_eq_nil_iff, conflictsWith_nil, ih]
+      simp [h]
+
+/-! ### the whole validation -/
+
+/-- the model of the validation never panics and never returns an error value: it yields a list -/
+theorem validate_total (env : Env) (known : List Known) (c : Cluster) : ∃ e, validate env known c = .ok e := by
+  obtain ⟨ns, e3, hl, _, _⟩ := vfcLoop_spec (child (child "spec" "flowControl") "flowControlSchemas") c.schemas 0 []
+  simp [validate, validateUpstreamCluster, validateUpstreamClusterSpec, validateFlowControl, hl, bind, Except.bind, pure, Except.pure]
+
+theorem validate_ok_iff_valid (env : Env) (known : List Known) (c : Cluster) :
+    validate env known c = .ok [] ↔ valid env known c = true := by
+  obtain ⟨ns, e3, hl, hiff, hns⟩ := vfcLoop_spec (child (child "spec" "flowControl") "flowControlSchemas") c.schemas 0 []
+  obtain ⟨hs1, hs2, hs3⟩ := validateServers_spec env c.servers (child "spec" "servers")
+  simp only [validate, validateUpstreamCluster, validateUpstreamClusterSpec, validateFlowControl, hl, bind, Except.bind,
+    pure, Except.pure, Except.ok.injEq, List.append_eq_nil_iff, validateClientConfig_nil, validateSecureServing_nil,
+    validateFeatureGate_nil, validateConflicts_nil, validatePolicies_nil, hs3, errIf_eq_nil, validateLoggingConfig]
+  simp only [List.nil_append, List.not_mem_nil, not_false_eq_true, implies_true, true_and] at hiff hns
+  constructor
+  · rintro ⟨⟨⟨hm, ⟨⟨⟨⟨⟨⟨hsrv, hcl⟩, hss⟩, he3⟩, hlog⟩, hpol0⟩, hpol⟩⟩, hg⟩, hk⟩
+    have hsv := hs1.mp hsrv
+    rw [hs2 hsrv] at hcl
+    have hsch := hiff.mp he3
+    rw [hns he3] at hpol
+    simp only [valid, usable, classes, formOK, Bool.and_eq_true, decide_eq_true_eq, List.all_eq_true, policyRefsOK,
+      Bool.or_eq_true, List.contains_iff_mem]
+    have hlog' : logModeOK c.loggingMode = true := by simpa using hlog
+    have hp0 : c.policies ≠ [] := by simpa using hpol0
+    exact ⟨⟨⟨⟨⟨hm, ⟨⟨⟨⟨⟨⟨hsv.1, hsv.2.1⟩, hsv.2.2⟩, hcl.2⟩, hss⟩, fun x hx => (hsch.2 x hx).2⟩, hsch.1⟩,
+      fun x hx => ⟨(hpol x hx).2.1, (hpol x hx).2.2.1⟩⟩, hcl.1⟩,
+      ⟨⟨fun x hx => (hsch.2 x hx).1, hlog'⟩, hp0⟩, fun x hx => ⟨⟨(hpol x hx).1, (hpol x hx).2.2.2.1⟩, (hpol x hx).2.2.2.2⟩⟩, hg⟩, hk⟩
+  · intro hv
+    simp only [valid, usable, classes, formOK, Bool.and_eq_true, decide_eq_true_eq, List.all_eq_true, policyRefsOK,
+      Bool.or_eq_true, List.contains_iff_mem] at hv
+    obtain ⟨⟨⟨⟨⟨hm, ⟨⟨⟨⟨⟨⟨hsv1, hsv2⟩, hsv3⟩, hcl2⟩, hss⟩, hsch2⟩, hsch1⟩, hpolr⟩, hcl1⟩,
+      ⟨⟨hstr, hlog⟩, hp0⟩, hpolf⟩, hg⟩, hk⟩ := hv
+    have hsrv := hs1.mpr ⟨hsv1, hsv2, hsv3⟩
+    have he3 : e3 = [] := hiff.mpr ⟨hsch1, fun s hs => ⟨hstr s hs, hsch2 s hs⟩⟩
+    rw [hs2 hsrv, hns he3]
+    refine ⟨⟨⟨hm, ⟨⟨⟨⟨⟨⟨hsrv, hcl1, hcl2⟩, hss⟩, he3⟩, by simpa using hlog⟩, by simpa using hp0⟩, ?_⟩⟩, hg⟩, hk⟩
+    intro pol hp
+    exact ⟨(hpolf pol hp).1.1, (hpolr pol hp).1, (hpolr pol hp).2, (hpolf pol hp).1.2, (hpolf pol hp).2⟩
+
+/-! ### the gateway's consumers -/
+
+/-- numbers of an accepted schema survive the `uint32` conversion -/
+theorem toU32_of_nonneg (x : Int) (h0 : 0 ≤ x) (h1 : x < 4294967296) : toU32 x = x.toNat := by
+  unfold toU32
+  rw [Int.emod_eq_of_lt h0 h1]
+
+theorem newFlowControl_ok (s : Schema) (h : schemaOK s = true) : ∃ fc, newFlowControl s = .ok fc := by
+  obtain ⟨name, strategy, exempt, m, tb, gm, gtb⟩ := s
+  cases exempt <;> cases m <;> cases tb <;> cases gm <;> cases gtb <;>
+    simp [schemaOK, shapeOf] at h <;>
+    simp [newFlowControl, guessFlowControlSchemaType, deref, bind, Except.bind, pure, Except.pure]
+
+theorem localWrapperSync_ok (w : FlowControlCache) (s : Schema) (h : schemaOK s = true) :
+    ∃ w', localWrapperSync w s = .ok w' := by
+  unfold localWrapperSync
+  split
+  · exact ⟨_, rfl⟩
+  · obtain ⟨fc, hfc⟩ := newFlowControl_ok s h
+    cases hw : w.fc with
+    | none => simp [hfc, bind, Except.bind, pure, Except.pure]
+    | some cur =>
+      simp only []
+      split
+      · simp [hfc, bind, Except.bind, pure, Except.pure]
+      · obtain ⟨name, strategy, exempt, m, tb, gm, gtb⟩ := s
+        cases exempt <;> cases m <;> cases tb <;> cases gm <;> cases gtb <;>
+          simp [schemaOK, shapeOf] at h <;>
+          simp [guessFlowControlSchemaType, deref, bind, Except.bind, pure, Except.pure]
+
+theorem syncOneSchema_ok (fcs : List (Str × FlowControlCache)) (a : Schema) (h : schemaOK a = true) :
+    ∃ fcs', syncOneSchema fcs a = .ok fcs' := by
+  unfold syncOneSchema
+  obtain ⟨w', hw⟩ := localWrapperSync_ok (loadOrNew fcs a.name) a h
+  exact ⟨alSet fcs a.name w', by simp [hw, bind, Except.bind, pure, Except.pure]⟩
+
+theorem upstreamLimiterSync_ok (l : UpstreamLimiter) (schemas : List Schema) (h : ∀ s ∈ schemas, schemaOK s = true) :
+    ∃ l', upstreamLimiterSync l schemas = .ok l' := by
+  unfold upstreamLimiterSync
+  split
+  · exact ⟨_, rfl⟩
+  · obtain ⟨fcs, hf, _⟩ := foldM'_ok syncOneSchema (fun _ => True) schemas (by
+      intro fcs _ a ha
+      obtain ⟨f', hf'⟩ := syncOneSchema_ok fcs a (h a ha)
+      exact ⟨f', hf', trivial⟩) l.flowControls trivial
+    simp [hf, bind, Except.bind, pure, Except.pure]
+
+theorem syncFeatureGate_ok (env : Env) (c : Cluster) (h : featureGateOK env c = true) :
+    ∃ b, syncFeatureGate env c.annotations = .ok b := by
+  unfold featureGateOK at h
+  unfold syncFeatureGate
+  cases ha : c.annotations with
+  | none => exact ⟨false, by simp [pure, Except.pure]⟩
+  | some m =>
+    simp only [ha] at h ⊢
+    by_cases he : mapGet m sFeatureGateKey = []
+    · exact ⟨false, by simp [he, pure, Except.pure]⟩
+    · cases hg : env.featureGateSet (mapGet m sFeatureGateKey) with
+      | none => simp [he, hg] at h
+      | some b => exact ⟨b, by simp [he, pure, Except.pure]⟩
+
+theorem syncSecureServingConfig_ok (env : Env) (old new : SecureServing) (h : servingOK env new = true) :
+    syncSecureServingConfig env old new = .ok new := by
+  obtain ⟨key, cert, ca, names⟩ := new
+  by_cases hk : key = [] <;> by_cases hc : cert = [] <;> by_cases ha : ca = [] <;>
+    simp [servingOK, hk, hc, ha] at h <;> simp [syncSecureServingConfig, hk, hc, ha, h, pure, Except.pure]
+
+/-- the client TLS configuration built from a valid object is accepted by client-go -/
+theorem tlsConfigFor_ok (env : Env) (scheme : Str) (c : ClientConfig) (h : clientTLSOK env scheme c = true) :
+    tlsConfigFor env (if scheme = sHttps then some ⟨c.keyData, c.certData, c.caData, c.insecure⟩ else none) = .ok () := by
+  obtain ⟨insecure, token, key, cert, ca, qps, burst, div⟩ := c
+  by_cases hs : scheme = sHttps
+  · by_cases hk : key = [] <;> by_cases hc : cert = [] <;> by_cases ha : ca = [] <;> cases insecure <;>
+      simp [clientTLSOK, hs, hk, hc, ha] at h <;> simp [tlsConfigFor, hs, hk, hc, ha, h, pure, Except.pure]
+  · simp [tlsConfigFor, hs, pure, Except.pure]
+
+theorem buildClusterRESTConfig_ok (env : Env) (henv : EnvOK env) (c : Cluster)
+    (hne : c.servers ≠ []) (hep : ∀ s ∈ c.servers, endpointOK env s.endpoint = true) :
+    buildClusterRESTConfig env c = .ok (if schemeOf c.servers = sHttps
+      then some ⟨c.clientConfig.keyData, c.clientConfig.certData, c.clientConfig.caData, c.clientConfig.insecure⟩ else none) := by
+  unfold buildClusterRESTConfig schemeOf
+  cases hsv : c.servers with
+  | nil => exact absurd hsv hne
+  | cons s rest =>
+    have h1 := hep s (by simp [hsv])
+    unfold endpointOK at h1
+    cases hu : env.urlParse s.endpoint with
+    | none => simp [hu] at h1
+    | some u =>
+      simp [hu] at h1
+      have := henv.scheme_agrees s.endpoint u hu h1.1
+      simp [hu, this, bind, Except.bind, pure, Except.pure]
+      split <;> rfl
+
+theorem addOrUpdateEndpoint_ok (env : Env) (tls : Option TLSClientConfig) (htls : tlsConfigFor env tls = .ok ())
+    (eps : List Str) (e : Str) (he : env.restHostOK e = true) : ∃ eps', addOrUpdateEndpoint env tls eps e = .ok eps' := by
+  unfold addOrUpdateEndpoint
+  split
+  · exact ⟨_, rfl⟩
+  · simp [htls, he, bind, Except.bind, pure, Except.pure]
+
+theorem restHostOK_of_endpointOK (env : Env) (henv : EnvOK env) (e : Str) (h : endpointOK env e = true) :
+    env.restHostOK e = true := by
+  unfold endpointOK at h
+  cases hu : env.urlParse e with
+  | none => simp [hu] at h
+  | some u =>
+    simp [hu] at h
+    have hs := henv.scheme_agrees e u hu h.1
+    exact henv.rest_host e u hu (by rw [hs]; exact h.1) h.2
+
+theorem syncEndpoints_ok (env : Env) (henv : EnvOK env) (tls : Option TLSClientConfig) (htls : tlsConfigFor env tls = .ok ())
+    (eps : List Str) (servers : List Server) (hep : ∀ s ∈ servers, endpointOK env s.endpoint = true) :
+    ∃ eps', syncEndpoints env tls eps servers = .ok eps' := by
+  unfold syncEndpoints
+  obtain ⟨r, hr, _⟩ := foldM'_ok (addOrUpdateEndpoint env tls) (fun _ => True) (servers.map (·.endpoint)) (by
+    intro st _ a ha
+    simp at ha
+    obtain ⟨s, hs, rfl⟩ := ha
+    obtain ⟨e', he'⟩ := addOrUpdateEndpoint_ok env tls htls st s.endpoint (restHostOK_of_endpointOK env henv _ (hep s hs))
+    exact ⟨e', he', trivial⟩) (eps.filter (fun e => (servers.map (·.endpoint)).contains e)) trivial
+  exact ⟨r, hr⟩
+
+/-- `Sync` of a valid object succeeds on every `ClusterInfo` whose rest config client-go accepts, and keeps it so -/
+theorem sync_ok (env : Env) (henv : EnvOK env) (known : List Known) (c : Cluster) (hv : valid env known c = true)
+    (ci : ClusterInfo) (htls : tlsConfigFor env ci.restTLS = .ok ()) :
+    ∃ ci', ci.sync env c = .ok ci' ∧ ci'.restTLS = ci.restTLS ∧ ci'.cluster = ci.cluster ∧
+      (ci.cluster = env.lower c.name → ci'.secureServing = c.secureServing) := by
+  simp only [valid, usable, classes, Bool.and_eq_true, decide_eq_true_eq, List.all_eq_true] at hv
+  obtain ⟨⟨⟨⟨⟨hm, ⟨⟨⟨⟨⟨⟨hsv1, hsv2⟩, hsv3⟩, hcl2⟩, hss⟩, hsch2⟩, hsch1⟩, hpolr⟩, hcl1⟩, hform⟩, hg⟩, hk⟩ := hv
+  unfold ClusterInfo.sync
+  split
+  · rename_i hne
+    exact ⟨ci, rfl, rfl, rfl, fun h => absurd h hne⟩
+  · obtain ⟨b, hb⟩ := syncFeatureGate_ok env c hg
+    obtain ⟨fl, hfl⟩ := upstreamLimiterSync_ok ci.flowcontrol c.schemas hsch2
+    have hssv := syncSecureServingConfig_ok env ci.secureServing c.secureServing hss
+    obtain ⟨eps, heps⟩ := syncEndpoints_ok env henv ci.restTLS htls ci.endpoints c.servers hsv2
+    simp only [hb, hfl, hssv, heps, bind, Except.bind, pure, Except.pure]
+    exact ⟨_, rfl, rfl, rfl, fun _ => rfl⟩
+
+/-- `CreateClusterInfo` of a valid object succeeds -/
+theorem createClusterInfo_ok (env : Env) (henv : EnvOK env) (known : List Known) (c : Cluster) (hv : valid env known c = true)
+    (remote : Bool) : ∃ ci, createClusterInfo env remote c = .ok ci ∧ tlsConfigFor env ci.restTLS = .ok () ∧
+      ci.cluster = env.lower c.name ∧ ci.secureServing = c.secureServing := by
+  have hv' := hv
+  simp only [valid, usable, classes, Bool.and_eq_true, decide_eq_true_eq, List.all_eq_true] at hv'
+  obtain ⟨⟨⟨⟨⟨hm, ⟨⟨⟨⟨⟨⟨hsv1, hsv2⟩, hsv3⟩, hcl2⟩, hss⟩, hsch2⟩, hsch1⟩, hpolr⟩, hcl1⟩, hform⟩, hg⟩, hk⟩ := hv'
+  have hb := buildClusterRESTConfig_ok env henv c hsv1 hsv2
+  have htls := tlsConfigFor_ok env (schemeOf c.servers) c.clientConfig hcl2
+  obtain ⟨ci', h1, h2, h3, h4⟩ := sync_ok env henv known c hv
+    (newEmptyClusterInfo env c.name (if schemeOf c.servers = sHttps
+      then some ⟨c.clientConfig.keyData, c.clientConfig.certData, c.clientConfig.caData, c.clientConfig.insecure⟩ else none) remote)
+    (by simpa [newEmptyClusterInfo] using htls)
+  refine ⟨ci', ?_, ?_, ?_, ?_⟩
+  · simp [createClusterInfo, hb, h1, bind, Except.bind]
+  · rw [h2]; simpa [newEmptyClusterInfo] using htls
+  · rw [h3]; rfl
+  · exact h4 rfl
+
+/-! ### the controller -/
+
+/-- "the manager reflects the lister": every name registered for another cluster is a (lower-cased) name of a
+    cluster the lister knows -/
+def ManagerReflects (env : Env) (known : List Known) (c : Cluster) (m : Manager) : Prop :=
+  ∀ k ci, alGet m k = some ci → ci.cluster ≠ env.lower c.name →
+    ∃ u ∈ known, env.lower u.name = ci.cluster ∧ ∃ s ∈ u.name :: u.serverNames, k = env.lower s
+
+theorem noConflict_manager (env : Env) (henv : EnvOK env) (known : List Known) (c : Cluster) (m : Manager)
+    (hk : noConflict env known c = true) (hm : ManagerReflects env known c m) :
+    ∀ n ∈ serverNamesOf env c.name c.secureServing, ∀ ci, alGet m n = some ci → ci.cluster = env.lower c.name := by
+  intro n hn ci hget
+  apply Decidable.byContradiction
+  intro hne
+  obtain ⟨u, hu, hun, s, hs, hks⟩ := hm n ci hget hne
+  unfold noConflict at hk
+  simp only [List.all_eq_true, Bool.or_eq_true, decide_eq_true_eq, Bool.and_eq_true] at hk
+  rcases hk u hu with h | h
+  · exact hne (by rw [← hun, h])
+  · have hs' := h s hs
+    simp only [serverNamesOf, List.mem_cons, List.mem_map] at hn
+    rcases hn with rfl | ⟨sn, hsn, rfl⟩
+    · apply hs'.1
+      rw [hks, henv.lower_idem]
+    · have := hs'.2 sn hsn
+      simp at this
+      exact this hks
+
+theorem checkServerNameConflict_false (m : Manager) (cn : Str) (new : List Str)
+    (h : ∀ n ∈ new, ∀ ci, alGet m n = some ci → ci.cluster = cn) : checkServerNameConflict m cn [] new = false := by
+  unfold checkServerNameConflict
+  split
+  · rfl
+  · simp only [List.filter_nil, List.any_nil, Bool.or_false, List.any_eq_false]
+    intro n hn
+    cases hg : alGet m n with
+    | none => simp
+    | some ci => simp [h n hn ci hg]
+
+/-- the controller's sync handler bootstraps a valid object (one it has no `ClusterInfo` for yet) -/
+theorem syncUpstreamCluster_ok (env : Env) (henv : EnvOK env) (known : List Known) (c : Cluster)
+    (hv : valid env known c = true) (remote : Bool) (m : Manager) (hm : ManagerReflects env known c m)
+    (hnew : alGet m (env.lower c.name) = none) : ∃ m', syncUpstreamCluster env remote m c = .ok m' := by
+  have hk : noConflict env known c = true := by
+    simp only [valid, Bool.and_eq_true] at hv; exact hv.2
+  have hnames := noConflict_manager env henv known c m hk hm
+  obtain ⟨ci, hci, _, hcl, hss⟩ := createClusterInfo_ok env henv known c hv remote
+  have hc1 := checkServerNameConflict_false m (env.lower c.name) (serverNamesOf env c.name c.secureServing) hnames
+  unfold syncUpstreamCluster
+  simp only [hnew, hc1, hci, Bool.false_eq_true, if_false]
+  have : addOrUpdateForServerNames env m [] ci = .ok
+      (((ci.cluster :: ci.secureServing.serverNames.map env.lower).filter (fun n => !([] : List Str).contains n)).foldl
+        (fun acc n => alSet acc n ci) m) := by
+    unfold addOrUpdateForServerNames
+    have hc2 : checkServerNameConflict m ci.cluster [] (ci.cluster :: ci.secureServing.serverNames.map env.lower) = false := by
+      rw [hcl, hss]; exact hc1
+    simp [hc2, pure, Except.pure]
+  rw [this]
+  exact ⟨_, rfl⟩
+
+/-! ### the limiter server -/
+
+theorem toFlowControlLimit_ok (s : Schema) : ∃ d, toFlowControlLimit s = .ok d ∧
+    d = ⟨s.globalMaxRequestsInflight, if s.globalMaxRequestsInflight.isSome then none else s.globalTokenBucket⟩ := by
+  obtain ⟨name, strategy, exempt, m, tb, gm, gtb⟩ := s
+  cases gm <;> cases gtb <;> simp [toFlowControlLimit, deref, bind, Except.bind, pure, Except.pure]
+
+theorem upstreamStateItem_ok (old : List Status) (s : Schema) : ∃ r, upstreamStateItem old s = .ok r ∧
+    r.1 = ⟨s.name, [], ⟨s.globalMaxRequestsInflight, if s.globalMaxRequestsInflight.isSome then none else s.globalTokenBucket⟩⟩ := by
+  obtain ⟨d, hd, hd'⟩ := toFlowControlLimit_ok s
+  unfold upstreamStateItem
+  simp only [hd, bind, Except.bind, pure, Except.pure]
+  exact ⟨_, rfl, by simp [hd']⟩
+
+theorem newGlobalFlowControl_ok (s : Schema) : ∃ r, newGlobalFlowControl s = .ok r := by
+  obtain ⟨name, strategy, exempt, m, tb, gm, gtb⟩ := s
+  cases gm <;> cases gtb <;> simp [newGlobalFlowControl, deref, bind, Except.bind, pure, Except.pure]
+
+theorem resizeGlobalFlowControl_ok (fc : GlobalFC) (s : Schema) : ∃ r, resizeGlobalFlowControl fc s = .ok r := by
+  obtain ⟨name, strategy, exempt, m, tb, gm, gtb⟩ := s
+  cases gm <;> cases gtb <;> simp [resizeGlobalFlowControl, deref, bind, Except.bind, pure, Except.pure]
+
+theorem storeSyncOne_ok (fcs : List (Str × GlobalFC)) (s : Schema) : ∃ r, storeSyncOne fcs s = .ok r := by
+  unfold storeSyncOne
+  split
+  · exact ⟨_, rfl⟩
+  · obtain ⟨g, hg⟩ := newGlobalFlowControl_ok s
+    cases ha : alGet fcs s.name with
+    | none => cases g <;> simp [hg, bind, Except.bind, pure, Except.pure]
+    | some cur =>
+      simp only []
+      by_cases ht : cur.typ ≠ guessFlowControlSchemaType s
+      · cases g with
+        | none =>
+          obtain ⟨r, hr⟩ := resizeGlobalFlowControl_ok cur s
+          simp [ht, hg, hr, bind, Except.bind, pure, Except.pure]
+        | some g' =>
+          obtain ⟨r, hr⟩ := resizeGlobalFlowControl_ok g' s
+          simp [ht, hg, hr, bind, Except.bind, pure, Except.pure]
+      · obtain ⟨r, hr⟩ := resizeGlobalFlowControl_ok cur s
+        simp [ht, hr, bind, Except.bind, pure, Except.pure]
+
+theorem mapM'_map {α β γ : Type} (f : α → M β) (g : β → γ) (k : α → γ) (l : List α)
+    (h : ∀ a ∈ l, ∃ b, f a = .ok b ∧ g b = k a) : ∃ bs, mapM' f l = .ok bs ∧ bs.map g = l.map k := by
+  induction l with
+  | nil => exact ⟨[], rfl, rfl⟩
+  | cons a l ih =>
+    obtain ⟨b, hb, hg⟩ := h a (by simp)
+    obtain ⟨bs, hbs, hm⟩ := ih (fun x hx => h x (by simp [hx]))
+    exact ⟨b :: bs, by simp [mapM', hb, hbs, bind, Except.bind, pure, Except.pure], by simp [hg, hm]⟩
+
+theorem storeSyncFlowControls_ok (u : Upstream) (schemas : List Schema) :
+    ∃ u', storeSyncFlowControls u schemas = .ok u' ∧ u'.state = u.state ∧ u'.instances = u.instances := by
+  unfold storeSyncFlowControls
+  split
+  · exact ⟨u, rfl, rfl, rfl⟩
+  · obtain ⟨fcs, hf, _⟩ := foldM'_ok storeSyncOne (fun _ => True) schemas (by
+      intro st _ a _
+      obtain ⟨r, hr⟩ := storeSyncOne_ok st a
+      exact ⟨r, hr, trivial⟩) u.flowControls trivial
+    simp only [hf, bind, Except.bind, pure, Except.pure]
+    exact ⟨_, rfl, rfl, rfl⟩
+
+/-- the limiter server's handler never fails, whatever the object and whatever its state -/
+theorem upstreamConditionHandler_ok (u : Upstream) (c : Cluster) : ∃ u', upstreamConditionHandler u c = .ok u' ∧
+    u'.state.items = c.schemas.map (fun s => ⟨s.name, [],
+      ⟨s.globalMaxRequestsInflight, if s.globalMaxRequestsInflight.isSome then none else s.globalTokenBucket⟩⟩) ∧
+    u'.instances = u.instances := by
+  obtain ⟨l, hl, hmap⟩ := mapM'_map (upstreamStateItem u.state.statuses) (·.1)
+    (fun s => (⟨s.name, [], ⟨s.globalMaxRequestsInflight, if s.globalMaxRequestsInflight.isSome then none else s.globalTokenBucket⟩⟩ : Item))
+    c.schemas (fun s _ => upstreamStateItem_ok u.state.statuses s)
+  obtain ⟨u', hu', hst, hin⟩ := storeSyncFlowControls_ok
+    { u with state := ⟨l.map (·.1), l.map (·.2)⟩ } c.schemas
+  refine ⟨u', ?_, ?_, ?_⟩
+  · simp only [upstreamConditionHandler, updateUpstreamStateCondition, hl, bind, Except.bind, pure, Except.pure]
+    exact hu'
+  · rw [hst]; exact hmap
+  · rw [hin]
+
 end KG.Lemmas.Validate
